@@ -438,6 +438,32 @@ impl Prop for ConnProp {
             ops.push(json!({"at_ms": t0 + 50 + rng.below(200), "op": "open_burst", "node": a, "to": b, "proto": rng.below(2), "count": rng.range(200, 420)}));
             ops.sort_by_key(|o| o["at_ms"].as_u64().unwrap_or(0));
         }
+        {
+            // two overlapping connections to a peer that stops answering, opens in flight on them,
+            // then the connections are lost one after the other (independent stream of the seed)
+            let mut r = Rng::fork(seed, "conn-two-connections");
+            if (self.id == "C08" || self.id == "C07") && r.chance(1, 8) {
+                let (a, b) = (1u64, 2u64);
+                let t1 = 1_200 + r.below(600);
+                let shape = if knobs["ws_nodes"].is_array() && r.chance(1, 2) { "good_ws" } else { "good" };
+                ops.push(json!({"at_ms": 20, "op": "dial_addr", "node": a, "to": b, "shape": "good"}));
+                ops.push(json!({"at_ms": 20 + r.below(3), "op": "dial_addr", "node": b, "to": a, "shape": shape}));
+                faults.push(json!({"at_ms": t1, "kind": "freeze", "node": b, "heal_after_ms": *r.pick(&[3_000u64, 20_000])}));
+                let burst = r.range(2, 6);
+                for k in 0..burst {
+                    ops.push(json!({"at_ms": t1 + 30 + k, "op": "open", "node": a, "proto": r.below(2), "to": b, "hold_ms": 0}));
+                }
+                let t2 = t1 + 60 + r.below(300);
+                faults.push(json!({"at_ms": t2, "kind": "reset", "k": r.below(2)}));
+                match r.below(3) {
+                    0 => faults.push(json!({"at_ms": t2 + r.below(3), "kind": "reset", "k": 0})),
+                    1 => faults.push(json!({"at_ms": t2 + 100 + r.below(2_000), "kind": "reset", "k": 0})),
+                    _ => {}
+                }
+                ops.sort_by_key(|o| o["at_ms"].as_u64().unwrap_or(0));
+                faults.sort_by_key(|f| f["at_ms"].as_u64().unwrap_or(0));
+            }
+        }
         let mut case = json!({
             "property": self.id,
             "seed": seed,
